@@ -397,10 +397,16 @@ func (p *sparser) postfix(x SExpr) SExpr {
 		case p.accept("."):
 			name := p.identName()
 			// pkg-qualified call: ident.ident(
-			if id, ok := x.(*SIdent); ok && p.isOp("(") {
+			if id, ok := x.(*SIdent); ok && p.isOp("(") && isPkgName(id.Name) {
 				p.next()
 				args := p.args()
 				x = &SCall{Fun: id.Name + "." + name, Args: args}
+				continue
+			}
+			if p.isOp("(") {
+				// method call on a value: x.M(args) — interface methods only
+				p.next()
+				x = &SCall{Fun: "." + name, Args: append([]SExpr{x}, p.args()...)}
 				continue
 			}
 			x = &SField{x, name}
